@@ -1357,7 +1357,8 @@ def perturb(p: dict, rng: vlib.Rng) -> tuple[str, dict] | None:
         if kind == 'wrong_rhs' and k in ('as', 'de', 'ret') and site():
             bad = rng.choice([('S', 'zz'), ('I', 7), ('N',), ('B', True), ('tup', [('I', 1)])])
             if rng.random() < 0.3:
-                bad = ('if', ('bin', '<', ('I', 1), ('I', 2)), bad, s[-1])
+                old = s[-1][1] if s[-1][0] == 'rev' else s[-1]      # probes stay at statement level
+                bad = ('if', ('bin', '<', ('I', 1), ('I', 2)), bad, old)
             return s[:-1] + (bad,)
         if kind == 'drop_check' and k == 'sif' and s[1][0] in ('inn', 'isn', 'isi', 'v') and site():
             return s[2] if s[1][0] != 'isn' or not s[3] else s[3]
